@@ -29,6 +29,8 @@ func mkc(n int) chan int {
 
 type small int8
 
+type mystr string
+
 func tick(n int) int { return vrt.V(9000+n%7, n) }`
 
 var strAlphabet = []string{"a", "z", "é", "€", "\U0001F600", "\xff", "\xc3", "\xe2\x82", "\xed\xa0\x80", "\x80", "\xf0\x9f", "\x00",
@@ -109,6 +111,10 @@ func (c *fctx) rangeStmt() []*S {
 	case "string":
 		valInt = false
 		loop.E = &X{K: XStr, S: c.randString()}
+		if r.Chance(1, 4) {
+			loop.E = &X{K: XRaw, S: fmt.Sprintf("mystr(%q)", c.randString())}
+			c.g.mark("range_named_string_type")
+		}
 		if r.Chance(1, 3) {
 			name := c.fresh([]string{"str", "str2"})
 			pre = append(pre, &S{K: SDecl, ID: c.g.id(), Name: name, E: loop.E})
@@ -274,6 +280,12 @@ func (c *fctx) consumerLoop(pull bool) []*S {
 		return []*S{decl, loop}
 	}
 	loop := &S{K: SRange, ID: c.g.id(), Op: ":=", OverIter: true, E: src}
+	if r.Chance(1, 8) {
+		// for range it { ... }: no loop variable
+		loop.Body = d.stmts(1 + r.Intn(3))
+		c.g.mark("consumer_range_without_variable")
+		return []*S{loop}
+	}
 	outs := c.sc.visible(vInt)
 	if len(outs) > 0 && r.Chance(1, 4) {
 		loop.Name, loop.Op = outs[r.Intn(len(outs))], "="
